@@ -334,13 +334,48 @@ def bfs (g : G) (maxStates : Nat) : String :=
   s!"ok states={n} complete={if complete then 1 else 0} stuck={stuck} terminals=" ++ "|".intercalate terms
 
 def scheds (g : G) (maxStates maxPaths : Nat) : String :=
-  let (n, complete, nodes, _) := explore g maxStates
+  let (n, complete, nodes, stuck) := explore g maxStates
   let leaves := nodes.toList.filter (·.leaf)
   let stride := if maxPaths == 0 then 1 else (leaves.length + maxPaths - 1) / maxPaths
   let stride := if stride == 0 then 1 else stride
   let picked := (List.range leaves.length).filterMap fun i => if i % stride == 0 then leaves[i]? else none
   let ss := picked.map fun nd => ".".intercalate (nd.path.reverse.map tidName)
-  s!"ok states={n} complete={if complete then 1 else 0} leaves={leaves.length} scheds=" ++ ";".intercalate ss
+  s!"ok states={n} complete={if complete then 1 else 0} stuck={stuck} leaves={leaves.length} scheds=" ++ ";".intercalate ss
+
+/-! ### search for fair livelocks: states in which only cycle-walk reads are enabled and every walker spins for ever -/
+
+def isRead (s : State) (t : Tid) : Bool :=
+  match t with
+  | .main => false
+  | .tgt l => match s.pc l with
+    | some (.walk (d :: _)) => d != l
+    | _ => false
+
+/-- does walker `l` still read after `fuel` steps when nobody else moves? -/
+def spins (g : G) (s : State) (l : Label) (fuel : Nat) : Bool := Id.run do
+  let mut cur := s
+  for _ in [0:fuel] do
+    if !isRead cur (.tgt l) then return false
+    match step g.P cur (.tgt l) with
+    | some s' => cur := { s' with seen := fun _ => [], expd := fun _ => [] }
+    | none => return false
+  return true
+
+def livelocks (g : G) (maxStates fuel : Nat) : String :=
+  let (n, complete, nodes, _) := explore g maxStates
+  let cands := nodes.toList.filter fun nd =>
+    let en := enabled g.P nd.s
+    !en.isEmpty && en.all (isRead nd.s) && en.all fun t => match t with
+      | .tgt l =>
+        -- when nobody else moves a terminating walk needs at most (length of its work list) x (a bound on the
+        -- expansion below one entry) reads: give it 60 reads per entry on top of the requested fuel
+        let len := match nd.s.pc l with | some (.walk t) => t.length | _ => 0
+        spins g nd.s l (fuel + 60 * len)
+      | .main => false
+  let ex := match cands.head? with
+    | some nd => ".".intercalate (nd.path.reverse.map tidName)
+    | none => "-"
+  s!"ok states={n} complete={if complete then 1 else 0} livelocks={cands.length} example={ex}"
 
 def handle (line : String) : String :=
   match line.splitOn " " with
@@ -353,6 +388,9 @@ def handle (line : String) : String :=
   | ["bfs", ps, m] => match parseParams ps, parseNat? m with
     | some g, some m => bfs g m
     | _, _ => "bad-params"
+  | ["live", ps, m, k] => match parseParams ps, parseNat? m, parseNat? k with
+    | some g, some m, some k => livelocks g m k
+    | _, _, _ => "bad-params"
   | ["sched", ps, m, k] => match parseParams ps, parseNat? m, parseNat? k with
     | some g, some m, some k => scheds g m k
     | _, _, _ => "bad-params"
